@@ -10,7 +10,7 @@ from ..lib import load
 
 ID = "C19"
 HASH_ADMISSION = False       # the catalogue keeps every hashed quantity >= 7% of a step from a boundary by construction
-BUDGET = {"quick": 6400, "thorough": 160000}
+BUDGET = {"quick": 4800, "thorough": 128000}
 SOFT = {"quick": 70, "thorough": 560}
 RULE = ("random setter histories (set_eps / set_sig_figures with and without argument, powers of ten 1e-12..1e-5 and "
         "non-power-of-ten values) with the eps/sig-figures relation checked after every call; then at the final setting E a "
@@ -47,6 +47,7 @@ def required_cells(tier):
     req["history:noarg"] = 50
     req["clause:4E-unequal"] = 100
     req["clause:restore"] = 100
+    req["history:objects-used-under-another-eps-first"] = 100
     return req
 
 
@@ -78,7 +79,7 @@ def cases(rng, budget, widx, nworkers, tier):
         kind = KINDS[(i // len(EXPS)) % len(KINDS)]
         yield {"hist": hist, "final": final, "E": e, "kind": kind, "frame": rng.choice(list(FRAMES)),
                "o": [rng.randint(-16, 16) for _ in range(3)], "which": rng.randint(0, 50), "axis": rng.randint(0, 2),
-               "div": rng.choice((1000, 1000, 100)), "sign": rng.choice((1, -1))}
+               "div": rng.choice((1000, 1000, 100)), "sign": rng.choice((1, -1)), "pretouch": rng.random() < 0.4}
 
 
 # ---- catalogue
@@ -228,7 +229,19 @@ def judge(case):
             return core.not_admitted("trivial-perturbation")
         A = _build(G, kind, vals)
         B = _build(G, kind, valsB)
+        if case.get("pretouch"):
+            # the same instances are first compared / hashed under the default tolerance: what they
+            # answer afterwards under E must not remember that
+            mu.cell("history:objects-used-under-another-eps-first")
+            cur_final = case["final"]
+            G.set_eps(1e-10)
+            _evaluate(G, kind, A, B, vals, valsB)
+            _apply(G, cur_final)
         out = _evaluate(G, kind, A, B, vals, valsB)
+        # a second pair built under E but never compared or hashed there (used for the restore clause)
+        twin = None
+        if kind != "PH" or case["which"] % 3 == 0:
+            twin = (_build(G, kind, vals), _build(G, kind, valsB))
         tag = "%s/E<=1e-10" % kind if case["E"] >= 10 else "%s/E>1e-10" % kind
         for clause, v in out.items():
             if v is not True:
@@ -252,6 +265,10 @@ def judge(case):
         again = _evaluate(G, kind, A, B, vals, valsB)
         G.set_eps(1e-10)
         base2 = _evaluate(G, kind, A, B, vals, valsB)
+        fresh = _evaluate(G, kind, twin[0], twin[1], vals, valsB) if twin is not None else base
+        if base != fresh:
+            mu.fail("restore:behaviour-depends-on-earlier-setting:%s" % kind,
+                    "after restoring eps=1e-10 objects that were compared at eps=1e-%d answer %r, identical objects never used there %r" % (case["E"], base, fresh))
         if again != out:
             mu.fail("restore:not-reproducible:%s" % kind, "same setting, different outcome: %r then %r" % (out, again))
         if base != base2:
